@@ -81,16 +81,17 @@ Proof.
   { intros f' s' H1 H2 j p Hj Hp. apply nth_upd_cases in Hj. destruct Hj as [(_ & _ & E)|(_ & E)].
     - subst f'. apply H1; auto.
     - apply H2. eapply K1; eauto. }
-  destruct f as [[sg info| |sg] p]; destruct p; unfold fstep; simpl.
-  - (* handler store *)
-    unfold do_store. destruct (exraw sh); [destruct (length (slot sh sg) <? CHAN_SLOTS)|]; constructor; simpl; auto;
-      apply KU; simpl; auto; intros; try congruence; try (eapply K1; eauto; discriminate).
-  - (* handler wake *)
-    pose proof (do_wake_spec sh ltac:(lia)) as W. simpl in W.
+  assert (HStore : forall sg info q, InvA c0 (mkW (do_store sh sg info) co bats gone (upd fr k (mkFrame (FH sg info) q)))).
+  { intros sg info q. unfold do_store. destruct (exraw sh); [destruct (length (slot sh sg) <? CHAN_SLOTS)|]; constructor; simpl; auto;
+      apply KU; simpl; auto; intros; try congruence; try (eapply K1; eauto; discriminate). }
+  assert (HWake : forall sg info q, InvA c0 (mkW (do_wake sh) co bats gone (upd fr k (mkFrame (FH sg info) q)))).
+  { intros sg info q. pose proof (do_wake_spec sh ltac:(lia)) as W. simpl in W.
     destruct W as (W1 & W2 & W3 & W4 & W5 & W6 & W7 & W8 & W9 & W10 & W11 & W12 & W13 & W14 & W15 & W16).
     constructor; simpl; try rewrite W2; try rewrite W3; try rewrite W4; auto; intros; try lia;
       try (eapply KU; eauto; simpl; try congruence; try (rewrite W3; auto); fail);
-      try (destruct (a_wait0 ltac:(assumption) ltac:(assumption)) as [A|A]; solve [auto | right; auto]).
+      try (destruct (a_wait0 ltac:(assumption) ltac:(assumption)) as [A|A]; solve [auto | right; auto]). }
+  destruct f as [[sg info| |sg] p]; destruct p; unfold fstep; cbn [fk pc];
+    try (destruct action_store_first; simpl; solve [apply HStore|apply HWake]); simpl.
   - constructor; simpl; auto. apply KU; simpl; auto; intros; try congruence; try (eapply K1; eauto; discriminate).
   - constructor; simpl; auto. apply KU; simpl; auto; intros; try congruence; try (eapply K1; eauto; discriminate).
   - (* close store *)
@@ -218,11 +219,11 @@ Proof.
   - destruct (nth_error (w_bats w) k); simpl; auto. unfold bstep. destruct (n <? MAX_SIGNUM); simpl; auto.
     unfold do_load. destruct (slot (w_sh w) n); simpl; auto.
   - destruct (nth_error (w_fr w) k) as [f|]; simpl; auto.
-    destruct f as [[sg info| |sg] p]; destruct p; unfold fstep; simpl; auto.
-    + unfold do_store. destruct (exraw (w_sh w)); [destruct (length (slot (w_sh w) sg) <? CHAN_SLOTS)|]; simpl; auto.
-    + unfold do_wake. destruct (pipe (w_sh w) <? cap (w_sh w)); [destruct (armed (w_sh w))|]; simpl; auto.
-    + unfold do_wake. destruct (pipe (w_sh w) <? cap (w_sh w)); [destruct (armed (w_sh w))|]; simpl; auto.
-    + destruct (idsm (w_sh w)); simpl; auto.
+    destruct f as [[sg info| |sg] p]; destruct p; unfold fstep; cbn [fk pc];
+      try destruct action_store_first; try destruct close_store_first; simpl; auto;
+      try (unfold do_store; destruct (exraw (w_sh w)); [destruct (length (slot (w_sh w) sg) <? CHAN_SLOTS)|]; simpl; auto; fail);
+      try (unfold do_wake; destruct (pipe (w_sh w) <? cap (w_sh w)); [destruct (armed (w_sh w))|]; simpl; auto; fail);
+      try (destruct (idsm (w_sh w)); simpl; auto; fail).
   - destruct (watch (w_sh w) sg); simpl; auto.
   - auto.
   - destruct (sg <? MAX_SIGNUM); simpl; auto.
